@@ -37,6 +37,7 @@ class Ctx:
         self.nfail = 0
         self.bin = None
         self.tlc_n = 0
+        self.distinct = set()
 
     # ------------------------------------------------------------ building
     def build(self):
@@ -49,6 +50,11 @@ class Ctx:
         if p.returncode != 0:
             raise Broken("harness build failed:\n" + p.stdout + p.stderr)
         self.bin = out
+        # the repository's own tools/view (a main package): used by C09
+        self.viewbin = os.path.join(self.work, "view")
+        p = subprocess.run(["go", "build", "-o", self.viewbin, "./tools/view"], cwd=REPO, env=env, capture_output=True, text=True)
+        if p.returncode != 0:
+            self.viewbin = ""
         return out
 
     # ----------------------------------------------------------------- TLC
@@ -223,6 +229,26 @@ class Ctx:
             raise Broken("trace %s: consumed %d of %d events" % (trace, r["depth"] - 1, len(lines)))
         self.traces += nhist
         self.events += len(lines)
+        # distinct non-trivial histories: hashed text of each history that has
+        # at least one state-changing call and one compared result
+        cur, hs = [], []
+        for x in lines:
+            if x.startswith('{"e":"Reset"') or x.startswith('{"colls"') and '"e":"CInit"' in x:
+                if cur:
+                    hs.append(cur)
+                cur = []
+            cur.append(x)
+        if cur:
+            hs.append(cur)
+        if len(hs) == 1 and not lines[0].startswith('{"e":"Reset"') and '"e":"CInit"' not in lines[0]:
+            hs = [[x] for x in lines]      # one case per line (enumeration / iterator word traces)
+        with _report_lock:
+            for h in hs:
+                txt = "\n".join(h)
+                changing = any(k in txt for k in ('"e":"Set"', '"e":"Del"', '"e":"MStart"', '"e":"Word"', '"e":"Enum"', '"e":"Flush"'))
+                observing = any(k in txt for k in ('"e":"Obs"', '"e":"Get"', '"e":"Visit"', '"e":"REnd"', '"e":"Word"', '"e":"Enum"', '"e":"Decode"', '"e":"Refs"'))
+                if changing and observing:
+                    self.distinct.add(hash(txt))
         if not self.samples:
             self.samples.append(dict(trace_excerpt=[json.loads(x) for x in lines[1:9]]))
         for i, (at, cat) in enumerate(r["mismatches"]):
@@ -264,7 +290,7 @@ class Ctx:
         trans = sum(m["transitions"] for m in self.mc)
         cov = dict(states=states, transitions=trans, traces_validated_against_impl=self.traces,
                    samples=self.samples or [dict(note="no trace sample")],
-                   evaluations=max(1, self.events), distinct_nontrivial=max(2, self.traces),
+                   evaluations=max(1, self.events), distinct_nontrivial=len(self.distinct),
                    rule=rule, model_checking_runs=self.mc, events_validated=self.events,
                    exhaustive=exhaustive, notes=self.notes[:20],
                    known_findings_seen=[k["id"] for k, _ in self.known_hits])
